@@ -17,6 +17,8 @@ ASSUMPTIONS = ['the writer only emits constructs of the pinned grammar (DESIGN.m
                'with a blank; a null cell is spelled empty only in grids with >= 2 columns',
                'URIs contain no C0 controls and only the escapes \\\\ \\` \\uXXXX', 'fractional seconds have at most 6 digits',
                'the writer is cross-checked against the independent reader of C04 on every generated document']
+from .c01 import SIZES_RULE  # noqa: E402
+RULE = RULE + SIZES_RULE
 FEATURES = {}
 EXHAUSTIVE_CLAIM = False
 CHARSETS = ['utf-8', 'utf-8-sig', 'utf-16', 'utf-32', 'latin-1', 'cp1252', 'shift_jis']
@@ -123,6 +125,7 @@ def plan(tier, seed, excl):
     t += [('scalars', {'shard': i, 'n': 2000 if q else 50000}) for i in range(4)]
     t += [('docs', {'shard': i, 'n': 300 if q else 8000}) for i in range(16)]
     t.append(('empty', {}))
+    t += [('sizes', {'shard': i, 'of': 8, 'tier': tier}) for i in range(8)]
     return t
 
 
@@ -167,6 +170,15 @@ def run(part, args, env):
                     if n % 4003 == 1:
                         acc.sample(case)
         acc.exhaustive['catalogue value x uniform spelling plan x shape table'] = True
+    elif part == 'sizes':
+        from .c01 import sizes_part
+
+        def one(case):
+            n = case['sized'][1]
+            c = dict(case, choices=[n % 12] if n % 2 else [], eol='\r\n' if n % 3 == 0 else '\n', final_nl=n % 5 != 0,
+                     input='str' if n % 4 else 'bytes:utf-8')
+            check_doc(c, acc)
+        sizes_part(acc, args, one)
     elif part == 'empty':
         for single in (True, False):
             for inp in ('str', 'bytes:utf-8'):
